@@ -55,6 +55,11 @@ def world(n_chr):
     # a soft-masked (lower-case) stretch of the reference over the whole first gene and reads whose junctions are displaced by a few
     # bases from the annotated ones (left and right splice site): the junction correction compares read and reference bases, the
     # reference is held as a pyfaidx record by default and as a plain string with --high_memory
+    # the unannotated locus at 8000 has the same coordinates on every chromosome; on chr2 its splice sites are canonical for the OTHER
+    # strand (per-process memos keyed by coordinates alone would carry chr1's answer over to chr2 - or not, depending on the worker)
+    ng = W.exons(8000, [0, 1, 2])
+    ng_introns = set((ng[i][1] + 1, ng[i + 1][0] - 1) for i in range(len(ng) - 1))
+    w["sites"] = [[c, s_, e_, ("-" if (c == "chr2" and (s_, e_) in ng_introns) else k)] for c, s_, e_, k in w["sites"]]
     w["softmask"] = [["chr1", 900, 3600]]
     sh = W.exons(1000, [0, 1, 2, 3, 4])
     sh[0][1] += 3
